@@ -37,6 +37,11 @@ type Case struct {
 
 const limitDev = uint64(device.RejectAfterMessages)
 
+// limitSpec is the number the PROPERTY names (2^64-2^13-1), written out: device histories are
+// judged against it, not against whatever the code's constant currently is, so that a changed
+// constant is reported with the concrete counter that is wrongly accepted or refused.
+const limitSpec = uint64(1<<64 - 1<<13 - 1)
+
 func runImpl(ops []Op) []bool {
 	var f replay.Filter
 	obs := make([]bool, len(ops))
@@ -136,7 +141,7 @@ func runDevice(r *rand.Rand, ops []Op) ([]Case, error) {
 			if r.Intn(7) == 0 { // forged: same key index, adversarial counter, bad tag
 				fc := o.C
 				if r.Intn(2) == 0 {
-					fc = limitDev - 2
+					fc = limitSpec - 2
 				}
 				tag++
 				m := h.sess.Transport(fc, mkInner(tag))
@@ -146,7 +151,7 @@ func runDevice(r *rand.Rand, ops []Op) ([]Case, error) {
 			}
 			tag++
 			batch = append(batch, sim.Dgram{From: a.Addr, Data: h.sess.Transport(o.C, mkInner(tag))})
-			h.c.Ops = append(h.c.Ops, Op{C: o.C, L: limitDev})
+			h.c.Ops = append(h.c.Ops, Op{C: o.C, L: limitSpec})
 			h.c.Obs = append(h.c.Obs, false)
 			pend = append(pend, pending{h, len(h.c.Ops) - 1, tag})
 			i++
